@@ -596,6 +596,11 @@ pub fn run(tier: &'static str) -> i32 {
         // sampled, the law is the uniform one like anywhere else
         (Spec::Rv { dim: 1, bounds: Some(vec![(-1.0e308, 1.7e308)]), frac: None }, 1, 4096, 64),
         (Spec::Rv { dim: 2, bounds: Some(vec![(0.0, 1.0), (-1.7e308, 0.5e308)]), frac: None }, 2, 64, 8),
+        // boxes that are narrow relative to the magnitude of their bounds (a time window, a map tile far
+        // from the origin, a sliver at the origin): every part of the interval is reachable
+        (Spec::Rv { dim: 1, bounds: Some(vec![(1.7e9, 1.7e9 + 10.0)]), frac: None }, 1, 4096, 64),
+        (Spec::Rv { dim: 2, bounds: Some(vec![(5.4e6, 5.4e6 + 0.05), (0.0, 1e-8)]), frac: None }, 2, 64, 8),
+        (Spec::Rv { dim: 1, bounds: Some(vec![(-1e12 - 1.0, -1e12)]), frac: None }, 1, 4096, 64),
         (Spec::So2 { bounds: None, frac: None }, 1, 4096, 64),
         (Spec::So2 { bounds: Some((-1.0, 2.5)), frac: None }, 1, 4096, 64),
         (Spec::So2 { bounds: Some((0.5, PI)), frac: None }, 1, 4096, 64),
